@@ -259,7 +259,10 @@ int pam_get_user(pam_handle_t *pamh, const char **user, const char *prompt) { (v
 int pam_get_item(const pam_handle_t *pamh, int item_type, const void **item) { (void)pamh; if (get_item_ret != PAM_SUCCESS) return get_item_ret; if (item_type == PAM_AUTHTOK) *item = stack_authtok; else *item = NULL; return PAM_SUCCESS; }
 int pam_set_item(pam_handle_t *pamh, int item_type, const void *item) { (void)pamh; (void)item_type; set_item_called++; free(set_item_value); set_item_value = item ? strdup(item) : NULL; return set_item_ret; }
 const char *pam_strerror(pam_handle_t *pamh, int errnum) { (void)pamh; (void)errnum; return "pam error"; }
+/* like libpam: the format is really expanded (a format-string bug in the module then reads
+   arguments that are not there, which the sanitizers or the %n store make visible) */
 void pam_vsyslog(const pam_handle_t *pamh, int priority, const char *fmt, va_list args) { (void)pamh; (void)priority; char b[2048]; vsnprintf(b, sizeof b, fmt, args); }
+void pam_syslog(const pam_handle_t *pamh, int priority, const char *fmt, ...) { va_list ap; va_start(ap, fmt); pam_vsyslog(pamh, priority, fmt, ap); va_end(ap); }
 int pam_prompt(pam_handle_t *pamh, int style, char **response, const char *fmt, ...) {
   (void)pamh; (void)style; (void)fmt;
   switch (conv_mode) {
@@ -304,7 +307,9 @@ static void run_call(int callno) {
 
   /* inputs */
   int ulen = lens[choose("user-len", 8)], plen = lens[choose("pw-len", 8)];
-  pam_user = mkstr(ubuf, "USER", ulen); cur_password = mkstr(pbuf, "PW", plen);
+  /* a fifth of the calls carry printf conversions in every string that may reach a log line */
+  int hostile = choose("printf-conversions-in-data", 5) == 0;
+  pam_user = mkstr(ubuf, hostile ? "U%s%s%s%n%x" : "USER", ulen); cur_password = mkstr(pbuf, "PW", plen);
   const char *argv[8]; int argc = 0; char tbuf[32]; timeout_s = 3;
   int first_pass = choose("first-pass", 3); /* 0 none 1 try 2 use */
   if (first_pass == 1) argv[argc++] = "try_first_pass";
@@ -313,7 +318,7 @@ static void run_call(int callno) {
   int not_set = choose("opt-not-set-pass", 2); if (not_set) argv[argc++] = "not_set_pass";
   switch (choose("opt-sock", 4)) { case 1: argv[argc++] = "sock=/run/x.sock"; break; case 2: argv[argc++] = "sock="; break; case 3: argv[argc++] = "sock=/a"; argv[argc++] = "sock=/b"; break; }
   switch (choose("opt-timeout", 6)) { case 1: timeout_s = 1; argv[argc++] = "timeout=1"; break; case 2: timeout_s = 5; argv[argc++] = "timeout=5"; break; case 3: argv[argc++] = "timeout=0"; break; case 4: argv[argc++] = "timeout=-4"; break; case 5: argv[argc++] = "timeout=abc"; break; }
-  if (choose("opt-unknown", 3) == 0) argv[argc++] = "nullok";
+  if (choose("opt-unknown", 3) == 0) argv[argc++] = hostile ? "null%s%s%n%sok" : "nullok";
   (void)tbuf;
   int flags = choose("flag-silent", 2) ? PAM_SILENT : 0;
   get_user_ret = chance("get-user-fails", 1, 15) ? PAM_USER_UNKNOWN : PAM_SUCCESS;
@@ -329,8 +334,10 @@ static void run_call(int callno) {
   if (!fault_free && chance("connect-fails", 1, 8)) connect_errno = (int[]){ECONNREFUSED, ENOENT, EACCES, EAGAIN}[choose("connect-errno", 4)];
   /* reply text */
   static const char *texts[] = {"OK", "OK successfully authenticated", "NO", "NO wrong credentials", "", "O", "OKAY", "ok", "NOK", "KO", " OK", "\0OK", "NO OK", "XX"};
+  static const char *htexts[] = {"OK %s%s%n", "OK", "NO %s%s%s%s%n%n", "NO username '%s%s%n' is invalid"};
   int ti = choose("reply-text", fault_free ? 4 : 14);
-  char text[70000]; int tlen = (int)strlen(texts[ti]); memcpy(text, texts[ti], tlen); if (ti == 11) { text[0] = 0; text[1] = 'O'; text[2] = 'K'; tlen = 3; }
+  const char *chosen = (hostile && ti < 4) ? htexts[ti] : texts[ti];
+  char text[70000]; int tlen = (int)strlen(chosen); memcpy(text, chosen, tlen); if (ti == 11) { text[0] = 0; text[1] = 'O'; text[2] = 'K'; tlen = 3; }
   int pad = (int[]){0, 0, 0, 230, 253, 254, 300, 65000}[choose("reply-pad", fault_free ? 3 : 8)];
   if (pad && tlen >= 2) { if (tlen == 2) text[tlen++] = ' '; for (int i = 0; i < pad && tlen < 69000; i++) text[tlen++] = 'm'; }
   int declared = tlen;
